@@ -1119,7 +1119,7 @@ func plcCorpusRoster(h *plcHist) {
 	h.Add(true, A, 0, g.pubs(11, 12)) // after the commit: invisible until the next one
 	h.Nodes(A, 0)
 	h.Add(true, A, 1, g.pubs(13)) // vector 0 pending again
-	h.Commit(true, B, nil, false)  // Null replicas, other cid
+	h.Commit(true, B, nil, false) // Null replicas, other cid
 	h.Nodes(B, 0)
 	h.Reps(B)
 	h.Nodes(A, 0)
